@@ -67,7 +67,10 @@ KindCode(k) == CASE k = "sc" -> 1 [] k = "sf" -> 2 [] k = "fc" -> 3 [] k = "v2" 
 
 \* truth about one leaf: the fields of Accumulator.meta plus kind and what enabling conditions need
 \* (mat: maturity height; ws/we: WindowStart/WindowEnd resp. ProofHeight/ExpirationHeight;
-\*  nv/nm: numbers of valid / missed proof outputs; h: height, for chain index elements)
+\*  nv/nm: numbers of valid / missed proof outputs -- for a siafund output nv is log2 of its value: v1
+\*  transactions cannot create siafund outputs above 10 000, so an output can be halved nv times only;
+\*  for a siacoin output nm = 1 marks a siafund claim output (possibly of value zero: never spent by the model);
+\*  h: height, for chain index elements)
 El(id, k, spent, mat, ws, we, nv, nm, h) ==
   [id |-> id, ver |-> 0, spent |-> spent, k |-> k, mat |-> mat, ws |-> ws, we |-> we, nv |-> nv, nm |-> nm, h |-> h]
 
@@ -121,17 +124,21 @@ ResolveRef(d, k, r) ==
     ELSE [d EXCEPT ![CHOOSE j \in LeafDiffs(d, r.o) : TRUE].spent = TRUE]
   ELSE [d EXCEPT ![IdxOf(d, k, r)].spent = TRUE]
 \* createSiacoinElement / createSiafundElement for the outputs of transaction ti
-NewOuts(d, k, ti, n) == d \o [j \in 1..n |-> Diff(k, None, ti, j - 1, FALSE, FALSE, 0, 0, 0, 0, 0)]
+NewOuts(d, k, ti, n, q) == d \o [j \in 1..n |-> Diff(k, None, ti, j - 1, FALSE, FALSE, 0, 0, 0, q, 0)]
 \* createImmatureSiacoinElement: claims, contract payouts, miner payout (nothing in the block can refer to them)
 Immature(d, n) == d \o [j \in 1..n |-> Diff("sc", None, 0, 0, FALSE, FALSE, Child + MatDelay, 0, 0, 0, 0)]
+\* a siafund claim output: its value may be zero (no contract tax since ClaimStart), so no transaction of the
+\* model spends it (nm = 1 marks it)
+Claim(d) == Append(d, Diff("sc", None, 0, 0, FALSE, FALSE, Child + MatDelay, 0, 0, 0, 1))
 
 \* ApplyTransaction / ApplyV2Transaction of the ti-th transaction
 TxEffect(d, tx, ti) ==
   LET d1 == SpendAll(d, "sc", tx.ins, 1)
-      d2 == NewOuts(d1, "sc", ti, tx.nout)
+      d2 == NewOuts(d1, "sc", ti, tx.nout, 0)
       ck == IF tx.v = 1 THEN "fc" ELSE "v2"
   IN CASE tx.op = "sc"     -> d2
-       [] tx.op = "sf"     -> NewOuts(Immature(SpendRef(d2, "sf", tx.c), 1), "sf", ti, tx.nsf)
+       [] tx.op = "sf"     -> NewOuts(Claim(SpendRef(d2, "sf", tx.c)), "sf", ti, tx.nsf,
+                                      CAttr(d2, "sf", tx.c).nv - (tx.nsf - 1))
        [] tx.op = "form"   -> Append(d2, Diff(ck, None, ti, 0, FALSE, FALSE, 0, tx.ws, tx.we, tx.nv, tx.nm))
        [] tx.op = "rev"    -> ReviseRef(d2, ck, tx.c)
        [] tx.op = "prove"  -> Immature(ResolveRef(d2, "fc", tx.c), CAttr(d2, "fc", tx.c).nv)
@@ -144,7 +151,7 @@ TxEffect(d, tx, ti) ==
 Leaves(k) == {i \in 0..(Len(meta) - 1) : meta[i + 1].k = k /\ ~meta[i + 1].spent}
 InBlock(k) == {j \in 1..Len(mid.d) : mid.d[j].k = k /\ mid.d[j].leaf = None /\ mid.d[j].t > 0 /\ ~mid.d[j].spent}
 
-ScAvail == {Ref(0, i) : i \in {i \in Leaves("sc") : meta[i + 1].mat <= Child /\ LeafDiffs(mid.d, i) = {}}}
+ScAvail == {Ref(0, i) : i \in {i \in Leaves("sc") : meta[i + 1].mat <= Child /\ meta[i + 1].nm = 0 /\ LeafDiffs(mid.d, i) = {}}}
            \cup {Ref(mid.d[j].t, mid.d[j].o) : j \in InBlock("sc")}
 SfAvail(v) == {Ref(0, i) : i \in {i \in Leaves("sf") : LeafDiffs(mid.d, i) = {}}}
               \cup (IF v = 1 \/ Child < EphH THEN {Ref(mid.d[j].t, mid.d[j].o) : j \in InBlock("sf")} ELSE {})
@@ -165,7 +172,8 @@ Cand(v, op) ==
                         natt \in Ch(IF v = 2 THEN 0..1 ELSE {0})}
                      : sz \in Ch(1..Min2(IF Exhaustive THEN 2 ELSE 3, Cardinality(ScAvail)))}
     [] op = "sf" ->
-         {Tx(v, "sf", <<>>, 0, c, nsf, 0, 0, 0, 0, 0) : c \in Ch(SfAvail(v)), nsf \in Ch(1..2)}
+         UNION {{Tx(v, "sf", <<>>, 0, c, nsf, 0, 0, 0, 0, 0) :
+                    nsf \in Ch(1..(IF CAttr(mid.d, "sf", c).nv >= 1 THEN 2 ELSE 1))} : c \in Ch(SfAvail(v))}
     [] op = "form" ->
          {Tx(v, "form", <<r>>, 1, NoRef, 0, Child + a, Child + a + b, IF v = 1 THEN nv ELSE 0, IF v = 1 THEN nm ELSE 0, 0) :
             r \in Ch(ScAvail), a \in Ch(0..(IF Exhaustive THEN 1 ELSE 2)), b \in Ch(1..(IF Exhaustive THEN 1 ELSE 2)),
@@ -258,7 +266,7 @@ BStep(op, b, exp, m, a, c) ==
 GenesisMeta(gsc, gsf, gfc) ==
   [i \in 1..(gsc + gsf + gfc + 1) |->
      IF i <= gsc THEN El(i - 1, "sc", FALSE, 0, 0, 0, 0, 0, 0)
-     ELSE IF i <= gsc + gsf THEN El(i - 1, "sf", FALSE, 0, 0, 0, 0, 0, 0)
+     ELSE IF i <= gsc + gsf THEN El(i - 1, "sf", FALSE, 0, 0, 0, 13, 0, 0)
      ELSE IF i <= gsc + gsf + gfc THEN El(i - 1, "fc", FALSE, 0, 2, 3, 1, 1, 0)
      ELSE El(i - 1, "ci", FALSE, 0, 0, 0, 0, 0, 0)]
 
